@@ -36,7 +36,7 @@ def correspond(ck, res, cf, hbin, tag, env=None):
 
 # level currently claimed per property (kept in step with tools/mkmanifest.py); "exploration" = the
 # property theorems are not finished yet: only the correspondence + judge decide
-LEVEL = {"C09": "exploration", "C01": "exploration", "C02": "exploration", "C03": "exploration", "C04": "exploration", "C05": "exploration", "C12": "exploration", "C13": "exploration"}
+LEVEL = {"C14": "exploration", "C19": "exploration", "C09": "exploration", "C01": "exploration", "C02": "exploration", "C03": "exploration", "C04": "exploration", "C05": "exploration", "C12": "exploration", "C13": "exploration"}
 def level_of(pid):
     return LEVEL.get(pid, "proof")
 
@@ -810,6 +810,22 @@ def judge_adf(text, a, queries, sort="none"):
             if kind == "complete" and got and got[0] != expected("grounded")[0]:
                 bad.append(("complete:order", "the grounded interpretation is not listed first"))
             info[kind] = len(got)
+        elif kind == "roundtrip":
+            if "nodes_equal=1" not in r or "ac_equal=1" not in r:
+                bad.append(("roundtrip:numbering", "round trip (%s) does not reproduce the node numbering / roots: %s" % (q[1], r)))
+            if "uniq_equal=0" in r or "vdeps_equal=0" in r:
+                bad.append(("roundtrip:bookkeeping", "round trip (%s) does not reproduce the unique table / variable sets: %s" % (q[1], r)))
+    # the same query asked again later (after round trips or other calls) must give the same answer
+    seen = {}
+    for k, q in enumerate(queries):
+        if q[0] in ("roundtrip", "table", "acs", "validate"):
+            continue
+        key = tuple(q)
+        r = ans.get(k)
+        if key in seen and r is not None and seen[key] != r.split(" ", 1)[-1]:
+            bad.append(("history:" + q[0], "%s answers differently when asked again later: %s vs %s" % (" ".join(q), seen[key], r)))
+        if r is not None:
+            seen.setdefault(key, r.split(" ", 1)[-1])
     info["n"] = len(names_impl)
     info["nstable"] = len(expected("stable")) if any(q[0] in ("stable", "stmca", "stmcb", "stmng", "stablepre") for q in queries) else None
     return bad, info
@@ -1147,3 +1163,113 @@ def check_C09(ck, res, replay):
     res.extra["largest_table"] = maxtable
     res.extra["model_mismatches"] = mism
     return ck.finish(res, level_of(res.pid), ASSUME_COMMON + ASSUME_BIO)
+
+
+# ====================================================================== C19 streaming mirror
+def gen_stream(rng, nvars, nops):
+    kind, body = gen.gen_prog(rng, nvars, nops, queries=False)
+    out = []
+    approx_nodes = 0
+    for l in body:
+        out.append(l)
+        approx_nodes += 2
+        # polls and partial pumps between operations; cuts inside an operation's node burst by pumping fewer nodes than pending
+        while rng.chance(2, 5):
+            k = rng.below(6)
+            if k < 2:
+                out.append("pump1 %d" % rng.below(4))
+            elif k < 3:
+                out.append("pump2 %d" % rng.below(4))
+            elif k < 5:
+                out.append("poll1 %d" % rng.below(2 + approx_nodes))
+            else:
+                out.append("poll2 %d" % rng.below(2 + approx_nodes))
+    out.append("tables")
+    # drain completely: everything pumped, both mirrors poll beyond the end
+    out += ["pump1 100000", "poll1 99999999", "pump2 100000", "poll2 99999999", "tables"]
+    return out
+
+
+def judge_stream(body, a):
+    bad = []
+    if a is None or any(l.startswith("PANIC") for l in a):
+        return [("panic", "implementation panicked")]
+    for l in a:
+        w = l.split(" ", 2)
+        if w[1] == "tables":
+            p, r, c = [t.strip().split(";") for t in w[2].split("|")]
+            if r != p[:len(r)]:
+                bad.append(("relay-not-prefix", "the relay's table is not a prefix of the producer's"))
+            if c != p[:len(c)]:
+                bad.append(("receiver-not-prefix", "the receiver's table is not a prefix of the producer's"))
+            last = (p, r, c)
+    if last[0] != last[1] or last[0] != last[2]:
+        bad.append(("drained-unequal", "after draining the channel the tables differ"))
+    # poll answers: found iff the handle is present after polling
+    qi = 0
+    ans = {l.split()[0]: l.split() for l in a}
+    for line in body:
+        w = line.split()
+        if w[0] in ("poll1", "poll2", "tables"):
+            r = ans.get("q%d" % qi)
+            qi += 1
+            if w[0].startswith("poll") and r:
+                found, size = r[2] == "1", int(r[3])
+                if found != (int(w[1]) < size):
+                    bad.append(("poll-answer", "%s answers found=%s but the store holds %d nodes afterwards" % (line, found, size)))
+    return bad
+
+
+def check_C19(ck, res, replay):
+    common_front(ck, res, "C19")
+    hbin = ck.build_harness(res)
+    rng = gen.Rng(res.seed ^ 0xC19)
+    cf = gen.CaseFile()
+    if replay:
+        r = json.load(open(replay))
+        cf.add("STREAM", r["body"], meta={})
+    else:
+        for _ in range(1500 if res.tier == "quick" else 40000):
+            cf.add("STREAM", gen_stream(rng, 2 + rng.below(5), 4 + rng.below(22)), meta={})
+    impl, model = correspond(ck, res, cf, hbin, "C19")
+    nontriv = set()
+    mism = polls = 0
+    for cid, (kind, body, meta) in cf.meta.items():
+        a, b = impl.get(cid), model.get(cid)
+        polls += sum(1 for l in body if l.startswith("poll"))
+        if sum(1 for l in body if l.startswith("poll")) >= 4:
+            nontriv.add(tuple(body))
+        for key, what in judge_stream(body, a):
+            res.violations.append({"key": "stream:" + key, "what": what, "body": body, "observed": a, "model": b})
+        if a != b:
+            mism += 1
+            if mism <= 5:
+                res.broken.append(("correspondence", "stream case %s: implementation and model differ" % cid, json.dumps({"body": body, "impl": a, "model": b})[:2500]))
+    res.cov["evaluations"] = len(cf.meta)
+    res.cov["distinct_nontrivial"] = len(nontriv)
+    res.cov["rule"] = ("random producer programs; the harness owns the channels producer -> relay -> receiver and moves pending nodes one by one, so polls fall between "
+                       "individual node creations; polls request random handles (present, pending, beyond); final drain; non-trivial = at least 4 polls; judged: every "
+                       "mirror is a prefix of the producer's table, drained tables identical, found iff present after polling; compared with the extracted model")
+    res.cov["samples"] = [cf.meta[c][1] for c in list(cf.meta)[:1]]
+    res.extra["polls"] = polls
+    res.extra["model_mismatches"] = mism
+    return ck.finish(res, level_of(res.pid), ASSUME_COMMON + ["crossbeam-channel is a linearizable FIFO (modelled as a list); real thread interleavings are not exhibited by the model"])
+
+
+# ====================================================================== C14 persistence round trips
+def c14_queries(rng, b):
+    sem = rng.shuffle([["grounded"], ["complete"], ["stable"], ["stmca"], ["stmng", "Simple"], ["counts", "0"]])[: 2 + rng.below(3)]
+    how = rng.pick(["json", "nodes"])
+    life = rng.below(3)
+    pre = [] if life == 0 else sem          # fresh, or after computations have grown the table
+    qs = pre + [["acs"], ["table"], ["roundtrip", how], ["acs"], ["table"]] + sem
+    if life == 2:
+        qs += [["roundtrip", rng.pick(["json", "nodes"])], ["table"]] + sem
+    return qs
+
+
+def check_C14(ck, res, replay):
+    run_adf_check(ck, res, replay, "C14", c14_queries, 700, 12000, nmax_q=7, nmax_t=9, backends=("native", "hyb0", "hyb1"))
+    # additional judgement: identical numbering and identical answers before / after each round trip
+    hb = os.path.join(ck.ROOT, "harness", "target", "debug", "verif-harness")
+    return ck.finish(res, level_of(res.pid), ASSUME_COMMON + ["serde / serde_json transport the records faithfully (exercised, not modelled)"])
